@@ -203,4 +203,16 @@ CHECKS = {
         'design_ref': 'DESIGN.md 6 C19',
         'note': 'Level "other": the step from representatives to every combination of layouts on every grammar rests on C01-C03/C02 (meaning of the discarding projections) and C12, on paper.',
     },
+    'C02': {
+        'category': 'proof',
+        'technique': 'contract-based deductive verification: loop invariants (prefix-sum ghost, positional stacks) on the real shunting-yard fragment with symbolic precedence/associativity tags; bounded reference for the tree shape',
+        'text': 'The emitted operator-table fragment is proved over abstract operand/prefix/infix/postfix children whose values carry SYMBOLIC (precedence, '
+                'associativity) tags - one run covers all tables, all inputs, unbounded: every pop/index/unpack is safe (ghost prefix sums of infix entries: '
+                'operands = infix entries + phase), the expression ends right after the last operand or postfix operator parsed (a dangling operator is left '
+                'unconsumed; a second non-associative operator ends the expression), exactly one tree remains, status/flags are right. Tagging by '
+                'OperatorTable.create: case-complete. Longest/Apply/Choice by their contracts.',
+        'design_ref': 'DESIGN.md 6 C02',
+        'note': 'BOUNDED, not counted as proved: the shape of the tree (precedence, associativity, in-order fringe, longest run) is compared with a brute-force '
+                'reference of the statement on all token sequences up to length 6 (quick) / 8 (thorough) over 6 tables. The full shunting-yard shape invariant is not attempted.',
+    },
 }
